@@ -362,6 +362,9 @@ def run(ctx) -> None:
     ctx.rule("C14.R5", "a reloaded value keeps the fields its type is computed from: S.deserialize ∘ X._to_serial is the identity on every init-field of every value class (shared with C02.R1)", floor=5)
     from .c02 import r1_forward_codec
     r1_forward_codec(ctx, nf, rule="C14.R5", modules=("hugr.val",))
+    ctx.rule("C14.R8", "value encodings dump complete models: no exclusion options on model_dump / model_dump_json in hugr.val and the std value modules (shared with C03.R1)", floor=1)
+    from .c03 import dump_sites_rule
+    ctx.stats["C14.R8 dump sites"] = dump_sites_rule(ctx, "C14.R8", ("hugr.val", "hugr.std"))
     from .. import lints
     lints.arm(ctx)
 
